@@ -4,7 +4,9 @@
  *
  *   init  pre=<n>
  *       fresh target node with <n> marker groups; obs: tree
- *   load  fe=<front end> fmt=<runs|null> acc=<runs|null> text=<runs> fail=<k>
+ *   load  fe=<front end> fmt=<runs|null> acc=<runs|null> text=<runs> fail=<k> log=<0|1>
+ *       log = the optional logger argument of mpt_node_parse / mpt_parse_folder / parser::read: 0 = none (NULL),
+ *       1 = a log target that keeps the last message (it selects the exit path of the failure branch)
  *       fe = parsenode  mpt_parse_node, character source in memory
  *            ctxstdio   mpt_parse_node, source mpt_getchar_stdio on a temporary file
  *            ctxfile    mpt_parse_node, source mpt_getchar_file on a descriptor
@@ -336,6 +338,18 @@ class pf_parser : public mpt::config_parser
 public:
 	inline mpt::parser_context &context() { return _d; }
 };
+class pf_logger : public mpt::logger
+{
+public:
+	inline pf_logger() { }
+	inline ~pf_logger() { }
+	int log(const char *fcn, int type, const char *fmt, va_list va) __MPT_OVERRIDE
+	{
+		(void) fcn; (void) type;
+		if (fmt) vsnprintf(lastmsg, sizeof(lastmsg), fmt, va);
+		return 0;
+	}
+};
 #endif
 
 static void do_load(struct cmd *c)
@@ -348,6 +362,7 @@ static void do_load(struct cmd *c)
 	size_t flen, alen, tlen;
 	int fmtnull, accnull, tnull, ret = -1000, fired = 0, known = 1;
 	long k = (long) drv_int(c, "fail", 0);
+	int uselog = (int) drv_int(c, "log", 0);
 	long l0, l1, bad0, bad1, line = -1, fds1;
 	char *before, *after;
 	char path[600];
@@ -405,7 +420,7 @@ static void do_load(struct cmd *c)
 		f = fopen(path, "r");
 		l0 = pf_live();
 		pf_inject(k);
-		ret = mpt_node_parse(root, f, fmtnull ? 0 : (const char *) fmt, accnull ? 0 : (const char *) acc, &keep_logger);
+		ret = mpt_node_parse(root, f, fmtnull ? 0 : (const char *) fmt, accnull ? 0 : (const char *) acc, uselog ? &keep_logger : 0);
 		fired = k > 0 ? pf_fired() : 0;
 		pf_inject_off();
 		l1 = pf_live();
@@ -419,15 +434,17 @@ static void do_load(struct cmd *c)
 		l0 = pf_live();
 		{
 			pf_parser p;
+			pf_logger lg;
+			mpt::logger *out = uselog ? &lg : 0;
 			mpt::node *to = root;
 			if (!accnull && mpt_parse_accept(&p.context().name, (const char *) acc) < 0) known = 0;
 			if (!p.set_format(fmtnull ? 0 : (const char *) fmt)) ret = -999;
 			else if (!p.open(path)) ret = -998;
 			else {
-				ret = p.read(*to, 0);
+				ret = p.read(*to, out);
 				if (!strcmp(fe, "cxxreset")) {
 					if (!p.reset()) ret = -997;
-					else ret = p.read(*to, 0);
+					else ret = p.read(*to, out);
 				}
 				line = (long) p.line();
 			}
@@ -519,6 +536,7 @@ static void do_folder(struct cmd *c)
 	const char *files = drv_raw(c, "files");
 	long k = (long) drv_int(c, "fail", 0);
 	int hidden = (int) drv_int(c, "hidden", 0);
+	int uselog = (int) drv_int(c, "log", 0);
 	char dir[600], path[700];
 	char *copy = strdup(files ? files : ""), *save = 0, *tok;
 	char **made = 0;
@@ -548,7 +566,7 @@ static void do_folder(struct cmd *c)
 	d = opendir(dir);
 	l0 = pf_live();
 	pf_inject(k);
-	ret = mpt_parse_folder(d, folder_save, 0, &keep_logger);
+	ret = mpt_parse_folder(d, folder_save, 0, uselog ? &keep_logger : 0);
 	fired = k > 0 ? pf_fired() : 0;
 	pf_inject_off();
 	l1 = pf_live();
